@@ -140,6 +140,15 @@ def _backend_worker(args):
         r = lib.crypto_sign_open(out, ctypes.byref(ull), rsig + msg, ctypes.c_ulonglong(64 + mlen), rpk)
         if r != 0 or ull.value != mlen or out.raw[:mlen] != msg:
             fails.append(("crypto_sign_open/" + key, "honest signed message rejected or wrong message"))
+        # the same calls with the optional length outputs absent (NULL): results must not change
+        ctypes.memset(sig, 0, 64); lib.crypto_sign_detached(sig, None, msg, ctypes.c_ulonglong(mlen), sk)
+        if sig.raw != rsig: fails.append(("crypto_sign_detached(siglen_p=NULL)/" + key, "got %s want %s" % (sig.raw.hex(), rsig.hex())))
+        ctypes.memset(sm, 0, 64 + mlen); lib.crypto_sign(sm, None, msg, ctypes.c_ulonglong(mlen), sk)
+        if sm.raw[:64 + mlen] != rsig + msg: fails.append(("crypto_sign(smlen_p=NULL)/" + key, "combined form differs from sig || msg"))
+        ctypes.memset(out, 0xA5, mlen + 1); r = lib.crypto_sign_open(out, None, rsig + msg, ctypes.c_ulonglong(64 + mlen), rpk)
+        if r != 0 or out.raw[:mlen] != msg: fails.append(("crypto_sign_open(mlen_p=NULL)/" + key, "ret %d; the verified message was not delivered" % r))
+        ctypes.memset(sig, 0, 64); lib.crypto_sign_init(st); lib.crypto_sign_update(st, msg, ctypes.c_ulonglong(mlen)); lib.crypto_sign_final_create(st, sig, None, sk)
+        if sig.raw != rsigph: fails.append(("crypto_sign_final_create(siglen_p=NULL)/" + key, "Ed25519ph signature differs from RFC 8032"))
         # multipart (Ed25519ph)
         lib.crypto_sign_init(st); lib.crypto_sign_update(st, msg, ctypes.c_ulonglong(mlen)); lib.crypto_sign_final_create(st, sig, ctypes.byref(ull), sk)
         if sig.raw != rsigph:
